@@ -736,6 +736,11 @@ fn resolve_type(t: &ast::TypeId, types: &[ast::ScopedIdentifier]) -> ast::TypeId
     t
 }
 
+thread_local! {
+    /// set by the source-module oracle: an `Either(expr, type)` is compared on its expression half (see `run_source`)
+    static EITHER_AS_EXPRESSION: std::cell::Cell<bool> = const { std::cell::Cell::new(false) };
+}
+
 fn resolve_eot(e: &ast::ExpressionOrType, types: &[ast::ScopedIdentifier]) -> ast::ExpressionOrType {
     match e {
         ast::ExpressionOrType::Expression(e) => {
@@ -743,9 +748,25 @@ fn resolve_eot(e: &ast::ExpressionOrType, types: &[ast::ScopedIdentifier]) -> as
         }
         ast::ExpressionOrType::Type(t) => ast::ExpressionOrType::Type(resolve_type(t, types)),
         ast::ExpressionOrType::Either(e, t) => {
-            ast::ExpressionOrType::Either(loc(resolve(&e.node, types)), resolve_type(t, types))
+            if EITHER_AS_EXPRESSION.with(|c| c.get()) {
+                ast::ExpressionOrType::Expression(loc(resolve(&e.node, types)))
+            } else {
+                ast::ExpressionOrType::Either(loc(resolve(&e.node, types)), resolve_type(t, types))
+            }
         }
     }
+}
+
+/// an `ast::Type` (no declarator) with the expression-or-type positions of its template arguments resolved
+fn resolve_plain_type(t: &ast::Type, types: &[ast::ScopedIdentifier]) -> ast::Type {
+    resolve_type(
+        &ast::TypeId {
+            base: t.clone(),
+            abstract_declarator: ast::Declarator::Empty,
+        },
+        types,
+    )
+    .base
 }
 
 // ------------------------------------------------------------------------------------------ wrapper module
@@ -1424,14 +1445,19 @@ fn run_source(text: &str) -> Outcome {
     // both trees go through the same rebuilding so that only genuine differences remain
     let mut types = Vec::new();
     stmt::type_names_module(&m1.root_definitions, &mut types);
-    let m1r = ast::Module {
-        root_definitions: stmt::resolve_module(&m1.root_definitions, &types),
-    };
     let m2r = ast::Module {
         root_definitions: stmt::resolve_module(&m2.root_definitions, &types),
     };
-    let d1 = strip_locations(&format!("{:?}", m1r));
-    let d2 = strip_locations(&format!("{:?}", m2r));
+    // an expression-or-type position is compared on what syntax can tell (notes/C09.md, "Readings"): `T<(n[b])>` is read as
+    // `Expression(n[b])`, printed `T<n[b]>` and re-read as `Either(n[b], type n[b])` — the same reading the tree streams
+    // apply ("an `Either` answer is compared on the half the original states").  For this comparison both trees have every
+    // `Either(expr, type)` replaced by `Expression(expr)`; the second print is made from the re-read tree as it is.
+    EITHER_AS_EXPRESSION.with(|c| c.set(true));
+    let c1 = stmt::resolve_module(&m1.root_definitions, &types);
+    let c2 = stmt::resolve_module(&m2.root_definitions, &types);
+    EITHER_AS_EXPRESSION.with(|c| c.set(false));
+    let d1 = strip_locations(&format!("{:?}", c1));
+    let d2 = strip_locations(&format!("{:?}", c2));
     if d1 != d2 {
         let at = d1.bytes().zip(d2.bytes()).position(|(a, b)| a != b).unwrap_or(d1.len().min(d2.len()));
         let lo = at.saturating_sub(60);
@@ -1852,10 +1878,23 @@ impl SrcGen {
             self.kinds.add("struct");
             let method = if self.rng.chance(1, 2) { self.function("m", false) } else { String::new() };
             s.push_str(&format!(
-                "struct S {{ float x; uint y[2]; float4 z : TEXCOORD0; {} {} }};\n",
+                "struct S {{ float x; uint y[2]; float4 z{}; {} {} }};\n",
+                if self.rng.chance(1, 2) { " : TEXCOORD0" } else { "" },
                 if self.rng.chance(1, 3) { "[[vk::offset(16)]] float w;" } else { "" },
                 method
             ));
+        }
+        if self.rng.chance(1, 5) {
+            // base types (printed since 2e907a1), with modifiers and template arguments
+            self.kinds.add("struct-bases");
+            let bases = match self.rng.below(4) {
+                0 => "S".to_string(),
+                1 => "S, B".to_string(),
+                2 => format!("S, T<{}, float>", self.rng.below(8)),
+                _ => format!("const S, N::B<({})>", self.expr(1)),
+            };
+            let method = if self.rng.chance(1, 3) { self.function("m", false) } else { String::new() };
+            s.push_str(&format!("struct Q : {} {{ float q; {} }};\n", bases, method));
         }
         if self.rng.chance(1, 8) {
             self.kinds.add("struct-template");
@@ -2251,8 +2290,8 @@ impl Gen {
         bits & 0x7fff_ffff
     }
 
-    /// a literal of any kind drawn from the whole value range (sign bit set in about one case of eight: negative
-    /// literals are a known defect class)
+    /// a literal of any kind drawn from the whole value range (sign bit set in about one case of eight: a negative
+    /// literal reads back as a unary minus — known finding; its grouping under postfix constructs is repaired, e7611e2)
     fn wide_literal(&mut self) -> SExp {
         let neg = self.rng.chance(1, 8);
         let int_mag = |g: &mut Gen, max_bits: u64| -> u64 {
@@ -2390,11 +2429,10 @@ impl Gen {
                 )
             }
             _ => {
-                // operators containing `<`, `>` or `,` inside template arguments are a known defect class (corpus)
+                // every operator: since e8e0be6 the shift operators and everything that binds less tightly (`<`, `>`, `,`,
+                // `?:` …) are printed in parentheses in an expression-or-type position
                 let e = self.expr(d.min(2), false);
-                let sh = e.show();
-                let risky = ["Less", "Greater", "Shift", "Sequence", "tern"].iter().any(|w| sh.contains(w));
-                SExp::list("E", vec![if risky { self.leaf() } else { e }])
+                SExp::list("E", vec![e])
             }
         }
     }
